@@ -2,8 +2,9 @@ SPECIFICATION Spec
 CONSTANTS
   MaxDepth = 4
   Variant = ""
-  Fams = {"pos", "vars", "tabfn", "tabmain", "redir", "sub"}
+  Fams = {"pos", "vars", "tabfn", "tabmain", "redir", "sub", "ns"}
   LB = 2
   LM = 2
+  Wide = {"ns"}
   Stepwise = FALSE
 INVARIANT Emit
